@@ -107,7 +107,7 @@ func gap(t *rapid.T, prev, cur *Lex, first bool, o RenderOpts) string {
 	return trivia(t, o, false)
 }
 
-var wsChoices = []string{" ", " ", " ", "\n", "\t", "  ", "\r\n", " \n "}
+var wsChoices = []string{" ", " ", " ", " ", " ", "\n", "\n", "\t", "  ", "\r\n", " \n ", "\u00a0", "\u00a0 ", "\u3000\n", " \u2028", "\u00a0\t\u00a0", "\v", "\f "}
 var commentChoices = []string{"/* c */", "/**/", "/* ; */", "/* ' \" ` */", "-- c\n", "--\n", "# c ; '\n", "// c\n", "/* -- */", "/*\n*/", "-- /* \n", "/* SELECT */"}
 
 func trivia(t *rapid.T, o RenderOpts, mayBeEmpty bool) string {
@@ -275,11 +275,12 @@ func escapeBody(t *rapid.T, v string, quote byte, triple, unicodeEsc bool, o Ren
 					b.WriteString(numeric(c))
 				}
 			default:
-				// printable ASCII: mostly verbatim, sometimes escaped
-				if !o.Plain && rapid.IntRange(0, 9).Draw(t, "esc-printable") == 0 {
+				// printable ASCII: mostly verbatim, sometimes escaped. (\u / \U escapes are kept rarer than the other
+				// forms only because each one costs memefish ~100 us: its decoder zeroes a [utf8.MaxRune]byte array.)
+				if !o.Plain && rapid.IntRange(0, 14).Draw(t, "esc-printable") == 0 {
 					if e, ok := namedEscapes[c]; ok {
 						b.WriteString(e)
-					} else if unicodeEsc && rapid.Bool().Draw(t, "u-esc") {
+					} else if unicodeEsc && rapid.IntRange(0, 3).Draw(t, "u-esc") == 0 {
 						b.WriteString(fmt.Sprintf(`\u%04x`, c))
 					} else {
 						b.WriteString(numeric(c))
@@ -296,7 +297,7 @@ func escapeBody(t *rapid.T, v string, quote byte, triple, unicodeEsc bool, o Ren
 			i++
 			continue
 		}
-		if unicodeEsc && !o.Plain && rapid.IntRange(0, 3).Draw(t, "rune-esc") == 0 {
+		if unicodeEsc && !o.Plain && rapid.IntRange(0, 5).Draw(t, "rune-esc") == 0 {
 			if r > 0xFFFF || rapid.Bool().Draw(t, "U8") {
 				b.WriteString(fmt.Sprintf(`\U%08x`, r))
 			} else {
